@@ -84,6 +84,20 @@ CHECKS = {
         "Fake transports mirror CPython 3.12 selector transports (fixed writelines); the stdlib writelines defect of 3.12.1 is a listed known finding (D9) re-observed on every run through a committed replay.",
         "DESIGN.md section 3 C20",
     ),
+    "C02": (
+        "exploration",
+        "property-based differential/metamorphic search against a reference frame-by-frame decoder: generated frame lists (valid/undecodable/band/oversized) x partitions x both receive paths, decomposition matcher",
+        "Streams built from tagged frames are fed through both consumers under generated partitions and fill sizes; outputs must equal the frame-by-frame reference for safely-sized streams and admit a decomposition (junk segment with a limit error per rejected frame, later frames intact) otherwise; junk packets must be substrings of the rejected frame.",
+        "Reference decoder is the harness' own splitter + the serializer's one-shot deserialize; band frames may go either way by definition (DESIGN C07).",
+        "DESIGN.md section 3 C02",
+    ),
+    "C07": (
+        "exploration",
+        "exhaustive enumeration of small limits x lengths x partitions plus property-based search: bytes held since last output vs limit+separator+read, safe/over frame oracles on both receive paths",
+        "Never-terminated and terminated streams of every length around the limit are fed in reads of bounded size; a limit error must be raised before limit+separator+read unterminated bytes are held, safely-under frames are never rejected, over frames always are; the buffered consumer's buffer never grows. Small limits are enumerated completely (all partitions up to 11/14 bytes).",
+        "Held bytes are measured as bytes fed since the last output (upper bound of what any internal buffer holds).",
+        "DESIGN.md section 3 C07",
+    ),
 }
 
 PENDING = {}
